@@ -225,10 +225,22 @@ package types
 //@   ensures [C11.once]       old(c.isDone.v) == 0 ==> calls(http.ResponseWriter.Write) == 1 && calls(http.ResponseWriter.WriteHeader) == 1 && before(http.ResponseWriter.WriteHeader, 1, http.ResponseWriter.Write, 1)
 //@ func NewBytesBuffer(buf)
 //@   fresh
-//@   ensures result != nil
+//@   modifies nothing
+//@   ensures typeis(result, *BytesBuffer)
 //@ func NewStringBuffer(buf)
 //@   fresh
-//@   ensures result != nil
+//@   modifies nothing
+//@   ensures typeis(result, *StringBuffer)
+
+// connection wrappers: what their constructors in engine/server.go establish
+//@ spec wscOK(w *WebSocketConn) bool = w != nil && w.EventEmitter != nil && w.Conn != nil
+//@ spec wtcOK(w *WebTransportConn) bool = w != nil && w.EventEmitter != nil && w.Conn != nil && w.Conn.session != nil
+//@ func (*WebSocketConn).Close()
+//@   requires wscOK(t)
+//@   modifies *
+//@ func (*WebTransportConn).CloseWithError(code, msg)
+//@   requires wtcOK(t)
+//@   modifies *
 
 // what NewHttpContext establishes (none of these fields is assigned afterwards)
 //@ spec ctxOK(c *HttpContext) bool = c != nil && c.EventEmitter != nil && c.request != nil && c.response != nil && c.headers != nil && c.query != nil && c.ResponseHeaders != nil && c.query != c.headers
